@@ -130,6 +130,15 @@ def vectors(run):
             for h in ('_round', '_roundup', '_rounddown'):
                 V.append((h, (x, n)))
         V.append(('_normalize_float_number', (x / 100,)))
+        if rec['s'] == 0:
+            # the same number held as a float, after and before the integer (results keep the kind of their own argument)
+            for n in (-1, 0, 2):
+                for h in ('_round', '_roundup', '_rounddown'):
+                    V.append((h, (float(x), n)))
+            for n in (-2, 1):
+                for h in ('_round', '_roundup', '_rounddown'):
+                    V.append((h, (float(x), n)))
+                    V.append((h, (x, n)))
     # C15
     th = 'FALSE'
     for kind in ('DATE', 'EDATE', 'DATEDIF', 'NWD'):
